@@ -209,6 +209,22 @@ class Tag:
             self.crs = c
 
 
+def _rebuilt(tag, name):
+    """a NEW CRS object denoting the same CRS as the tag (same slots): what a caller gets who
+    builds the CRS again from the same specification"""
+    if tag.is_none:
+        return None
+    if symx.concrete_mode():
+        return _real_crs(tag.cls, tag.epsg, tag.e70)
+    from odc.geo.crs import CRS
+
+    c = CRS.__new__(CRS)
+    c._crs = Opaque(tag.cls, tag.e70, tag.crs._crs._geographic)
+    c._epsg = tag.epsg
+    c._str = SymStr(tag.sid)
+    return c
+
+
 def axioms(tags):
     if symx.concrete_mode():
         # replay maps (class parity, coded?) onto real CRS objects; codes/strings are not used
@@ -252,7 +268,9 @@ class Pred:
         if self.flag is None:
             c = symx.ctx()
             c.fresh_n += 1
-            self.flag = SymBool(z3.Bool(f"_pred{c.fresh_n}"))
+            v = z3.Bool(f"_pred{c.fresh_n}")
+            symx._register(f"_pred{c.fresh_n}", v, "bool")  # part of the model: the replay picks shapes for which the predicate holds
+            self.flag = SymBool(v)
         return bool(self.flag)
 
 
@@ -396,6 +414,49 @@ def h_wrapped(op, shared):
         prove("result_tagged_with_operand_crs", tg if isinstance(tg, symx.Sym) else bool(tg))
 
 
+def h_history(op, rounds):
+    """state carried between calls: a long-lived geometry is combined with short-lived ones whose
+    CRS objects come and go (same CRS in a separate object, then a different CRS -- CPython hands
+    the freed address to the next object of that size): every mixed pair is refused, whatever was
+    accepted before"""
+    import gc
+
+    from odc.geo.geom import Geometry
+
+    ta, tb, tc = Tag("a", allow_none=False), Tag("b", allow_none=False), Tag("c", allow_none=False)
+    axioms([ta, tb, tc])
+    assume(same(ta, tb))
+    assume(Not(same(ta, tc)))
+    conc = symx.concrete_mode()
+    a = mk_geom("a", ta)
+    tb_crs0, tc_crs0 = tb.crs, tc.crs  # keep the originals alive elsewhere: fresh objects below come and go
+
+    def fresh(name, tag):
+        g = mk_geom(name, tag)
+        g.crs = _rebuilt(tag, name)
+        return g
+
+    for k in range(rounds):
+        b = fresh("b", tb)
+        try:
+            getattr(a, op)(b)
+        except ValueError:
+            prove(f"round{k}:equal_crs_in_another_object_is_accepted", False)
+            return
+        del b
+        gc.collect()
+        c = fresh("c", tc)
+        try:
+            getattr(a, op)(c)
+        except ValueError:
+            del c
+            gc.collect()
+            continue
+        prove(f"round{k}:different_crs_is_refused_whatever_was_accepted_before", False)
+        return
+    prove("all_rounds_done", True)
+
+
 def h_split():
     ta, tb = Tag("a"), Tag("b")
     axioms([ta, tb])
@@ -405,6 +466,10 @@ def h_split():
         from odc.geo.geom import Geometry
 
         b = Geometry(sg.LineString([(-1, 1), (5, 1)]), tb.crs)
+        if any(k.startswith("_pred") and v for k, v in symx.ctx().model_vals.items()):
+            # the path asked shapely a yes/no question about the two raw shapes and got "yes" (say:
+            # disjoint -- what coordinates in different reference systems usually are): a splitter far away
+            b = Geometry(sg.LineString([(1000, 1001), (1005, 1001)]), tb.crs)
     del CALLS[:]
     sm = same(ta, tb)
     try:
@@ -540,6 +605,9 @@ OBLIGATIONS = [
        functions=("odc.geo.crs.CRS.__eq__", "odc.geo.crs.CRS.__ne__"), bounds="class ids 1..4, EPSG code >= 0 (0 = none), string id symbolic", stubs=("abstract CRS tags",), setup=setup),
     Ob("O1_O2_wrapped", h_wrapped, _wrapped_params, descr="16 wrap_shapely operations: mismatch (incl. exactly one None) => ValueError before any shapely call; same CRS (any spelling) => exactly the same-named shapely call in operand order, predicate returned as is / geometry wrapped and tagged with the operands' CRS object",
        functions=("odc.geo.geom.wrap_shapely",) + tuple(f"odc.geo.geom.Geometry.{n}" for n in PREDICATES + SETOPS), bounds="two operands, each None or an abstract CRS", stubs=("abstract CRS tags", "opaque recording shapes"), setup=setup),
+    Ob("O4_history", h_history, fixed(dict(op="intersects", rounds=3), dict(op="union", rounds=3), dict(op="contains", rounds=4)),
+       descr="a long-lived geometry combined in turn with short-lived ones (equal CRS in a separate object, then a different CRS whose object may get the freed address): every mixed pair is refused whatever was accepted before",
+       functions=("odc.geo.geom.wrap_shapely", "odc.geo.crs.CRS.__eq__"), bounds="three abstract CRS tags (a = b != c), 3-4 rounds of accept / drop / refuse", stubs=("abstract CRS tags", "opaque recording shapes; CPython's own allocator and reference counting"), setup=setup),
     Ob("O1_split", h_split, fixed(), descr="Geometry.split", functions=("odc.geo.geom.Geometry.split",), stubs=("abstract CRS tags", "ops.split recorder"), setup=setup),
     Ob("O1_streams", h_stream, fixed(*[dict(fn=f, n=n, shared_first_two=s) for f in ("common_crs", "multigeom", "unary_union", "unary_intersection") for n, s in ((2, False), (3, False), (3, True))]),
        descr="common_crs / multigeom / unary_union / unary_intersection: any mismatch in the stream => ValueError; same => one shapely collection call over all shapes in order, tagged",
